@@ -159,12 +159,13 @@ def list_comprehension(eng, e, st):
         cur.assume(forall([k], z3.Implies(z3.And(k >= 0, k < ln),
                                              z3.And(src(k) >= 0, src(k) < n, c_of(src(k)),
                                                     h.at(r, k) == e_of(src(k)), inv(src(k)) == k)),
-                             patterns=[src(k)]))
+                             patterns=[src(k), h.at(r, k)]))
         cur.assume(forall([k, k2], z3.Implies(z3.And(k >= 0, k < k2, k2 < ln), src(k) < src(k2)),
                              patterns=[z3.MultiPattern(src(k), src(k2))]))
+        item_terms = [t for t in getattr(q, "item_terms", []) if t is not None]
         cur.assume(forall([v], z3.Implies(z3.And(v >= 0, v < n, c_of(v)),
                                              z3.And(inv(v) >= 0, inv(v) < ln, src(inv(v)) == v)),
-                             patterns=[inv(v)]))
+                             patterns=[inv(v)] + item_terms[:1]))
         cur.aux["last_filter"] = (src, inv, ln)
     out.append((cur, r))
     return out
@@ -699,6 +700,10 @@ def call_list_method(eng, fv, e, st):
 
 
 def _check_borrowed(eng, obj, st, node):
+    """a list handed out by a cached query is borrowed: mutating it corrupts the cache"""
+    if obj.aux == "borrowed":
+        eng.oblige(st, f"does-not-mutate-a-cached-list@{getattr(node, 'lineno', 0)}", z3.BoolVal(False), "borrow", node,
+                   detail="in-place mutation of a list returned by a @_dispatcher_cache query")
     hook = getattr(eng.cur, "mutation_hook", None)
     if hook is not None:
         hook(eng, obj, st, node)
@@ -706,6 +711,15 @@ def _check_borrowed(eng, obj, st, node):
 
 def _list_method(eng, obj, meth, pos, s, e):
     k = obj.ty.kind
+    if k == "cachedict":
+        if meth != "get" or len(pos) != 1 or pos[0].ty.kind != "str" or not isinstance(pos[0].t, str):
+            raise _oos("cache access other than _cache.get(<constant method name>)")
+        key = pos[0].t
+        if key not in eng.cache_keys():
+            raise _oos(f"cache key {key!r} is not a @_dispatcher_cache method name")
+        has = s.heap.get(f"$cache_has:{key}", obj.t) != 0
+        val = s.heap.get(f"$cache_val:{key}", obj.t)
+        return [(s, Val(Ty("cacheval", key), (has, val)))]
     if k == "set":
         if meth == "add":
             return [(s, VNONE)] if _set_update(s, e, obj, z3.Store(obj.t, to_int(pos[0]), z3.BoolVal(True)), eng) else []
@@ -766,8 +780,9 @@ def _list_method(eng, obj, meth, pos, s, e):
         s.heap = h.set_len(l, n + m).set_elarr(l, El)
         s.assume(forall([qv], z3.Implies(z3.And(qv >= 0, qv < n), z3.Select(El, qv) == z3.Select(old, qv)),
                            patterns=[z3.Select(El, qv)]))
-        s.assume(forall([qv], z3.Implies(z3.And(qv >= 0, qv < m), z3.Select(El, n + qv) == getter(qv)),
-                           patterns=[z3.Select(El, n + qv)]))
+        # indexed by the absolute position (a pattern must not contain arithmetic on the bound variable)
+        s.assume(forall([qv], z3.Implies(z3.And(qv >= n, qv < n + m), z3.Select(El, qv) == getter(qv - n)),
+                           patterns=[z3.Select(El, qv)]))
         out.append((s, VNONE))
         return out
     if meth == "pop" and not pos:
